@@ -40,6 +40,50 @@ mod reverse_delta_worker;
 #[cfg(test)]
 mod tests;
 
+/// Verification API (cfg nomt_verif): the delta codec and `Rollback::read` behind plain types.
+#[cfg(nomt_verif)]
+pub mod verif {
+    use super::{Delta, Rollback};
+    use std::{fs::File, io::Cursor, path::Path, sync::Arc};
+
+    /// `Delta::encode` (the order of the entries is the iteration order of the hash map).
+    pub fn delta_encode(priors: Vec<([u8; 32], Option<Vec<u8>>)>) -> Vec<u8> {
+        Delta {
+            priors: priors.into_iter().collect(),
+        }
+        .encode()
+    }
+
+    /// `Delta::decode`.
+    pub fn delta_decode(bytes: &[u8]) -> anyhow::Result<Vec<([u8; 32], Option<Vec<u8>>)>> {
+        let mut cursor = Cursor::new(bytes);
+        Ok(Delta::decode(&mut cursor)?.priors.into_iter().collect())
+    }
+
+    /// `Rollback::read`: the ids of the deltas kept in memory (oldest first) with their number of priors.
+    pub fn rollback_read(
+        max_rollback_log_len: u32,
+        dir: &Path,
+        start_live: u64,
+        end_live: u64,
+    ) -> anyhow::Result<Vec<(u64, usize)>> {
+        let fd = Arc::new(File::open(dir)?);
+        let rollback = Rollback::read(
+            max_rollback_log_len,
+            dir.to_path_buf(),
+            fd,
+            start_live,
+            end_live,
+        )?;
+        let in_memory = rollback.shared.in_memory.lock();
+        Ok(in_memory
+            .log
+            .iter()
+            .map(|(id, delta)| (id.0, delta.priors.len()))
+            .collect())
+    }
+}
+
 const MAX_SEGMENT_SIZE: u64 = 64 * 1024 * 1024; // 64 MiB
 
 struct InMemory {
